@@ -246,6 +246,8 @@ def parseOp (j : Json) : Option Op :=
   | some "start" => some (.start ((getChars j "n").getD []) ((getInt j "t").getD 0))
   | some "stop" => some (.stop ((getNat j "i").getD 0) ((getInt j "t").getD 0) (optInt j "rq") (optInt j "rp")
                           (optInt j "sv") ((getBool j "e").getD false))
+  | some "enter" => some (.enter ((getChars j "n").getD []) ((getInt j "t").getD 0))
+  | some "exit" => some (.exit ((getInt j "t").getD 0))
   | some "reset" => some .reset
   | some "enable" => some .enable
   | some "disable" => some .disable
@@ -263,6 +265,10 @@ def outJson : Out → Json
   | .stopped .runtimeError => Json.mkObj [("exc", "RuntimeError")]
   | .resetDone ok => Json.mkObj [("reset", ok)]
   | .unit => Json.mkObj [("ok", Json.null)]
+  | .indexError => Json.mkObj [("exc", "IndexError")]
+  | .exited sup .none => Json.mkObj [("exit", Json.null), ("suppress", sup)]
+  | .exited sup (.dt d) => Json.mkObj [("exit", intToJson d), ("suppress", sup)]
+  | .exited _ .runtimeError => Json.mkObj [("exc", "RuntimeError")]
 
 def statJson (p : List Char × Pywbem.Model.Statistics.OpStat) : Json :=
   let o := p.2
@@ -366,7 +372,13 @@ def handleLogCfg (j : Json) : Json :=
                                      ("events", Json.arr (r.events.map eventJson).toArray),
                                      ("state", stateJson r.g r.c)]])) (g0, c1, [])
   let (cn, evn) := newConn g info false
+  let (cc, evc) := copyConn g c
+  let kinds := fun (evs : List Event) => Json.arr (evs.map (fun e => match e with
+    | .log lg kind _ => Json.mkObj [("log", lg), ("kind", kind)]
+    | .testcase _ => Json.mkObj [("tc", Json.null)])).toArray
   Json.mkObj [("calls", Json.arr outs.toArray),
+              ("copy", Json.mkObj [("exc", Json.null), ("recorders", Json.arr (cc.recorders.map recJson).toArray),
+                                    ("events", kinds evc)]),
               ("newConn", Json.mkObj [("recorders", Json.arr (cn.recorders.map recJson).toArray),
                                        ("events", Json.arr (evn.map eventJson).toArray)]),
               ("final", stateJson g c)]
